@@ -132,6 +132,64 @@ Theorem C12_compiled_pattern_meaning : forall env idx x o p,
 Proof. exact compiled_pattern_meaning. Qed.
 Print Assumptions C12_compiled_pattern_meaning.
 
+(* ---- required presence, per field kind, as the validator sees it (the protobuf-level
+   reading; the JSON-level distinction "absent vs explicit default" does not exist in a
+   compiled message) -------------------------------------------------------------------
+   (a) a singular field that CAN be absent — declared optional, or message typed (object,
+       oneof, timestamp, date, decimal, any): absent is rejected iff the property must be
+       set (required, or a primary key), whatever its other rules say *)
+Theorem C12_presence_absent :
+  forall re_ok re_match pat_sem, engine_ok re_ok re_match pat_sem ->
+  forall env idx x o,
+  wf_env env = true -> key_placement_ok (x_prop x) = true ->
+  compile_prop re_ok env idx x = Ok o -> fvalue_typed (x_prop x) FAbsent = true ->
+  (must_be_set (x_prop x) -> validate_sem re_ok re_match (defined_numbers env) o FAbsent = VReject) /\
+  (~ must_be_set (x_prop x) -> validate_sem re_ok re_match (defined_numbers env) o FAbsent = VAccept).
+Proof. exact presence_absent. Qed.
+Print Assumptions C12_presence_absent.
+
+(* (b) a singular scalar NOT declared optional has no presence: the validator reads the
+       default value where nothing is set — "absent" and "holds the default" are one message
+       (so required rejects 0 / "" / false: C12_required_scalar_rejects_default below) *)
+Theorem C12_presence_none_reads_default :
+  forall re_ok re_match defined o,
+  has_presence o = false ->
+  validate_sem re_ok re_match defined o FAbsent
+  = validate_sem re_ok re_match defined o (FOne (zero_value (fo_kind o))).
+Proof. exact presence_none_reads_default. Qed.
+Print Assumptions C12_presence_none_reads_default.
+
+(* (c) repeated fields (arrays, maps): "set" means non-empty; a required one rejects the
+       empty list / map *)
+Theorem C12_presence_empty_array :
+  forall re_ok re_match pat_sem, engine_ok re_ok re_match pat_sem ->
+  forall env idx x o r sf t,
+  wf_env env = true -> key_placement_ok (x_prop x) = true ->
+  compile_prop re_ok env idx x = Ok o -> p_ty (x_prop x) = PArray r sf t ->
+  must_be_set (x_prop x) ->
+  validate_sem re_ok re_match (defined_numbers env) o (FMany []) = VReject.
+Proof. exact presence_empty_array. Qed.
+Print Assumptions C12_presence_empty_array.
+
+Theorem C12_presence_empty_map :
+  forall re_ok re_match pat_sem, engine_ok re_ok re_match pat_sem ->
+  forall env idx x o r t,
+  wf_env env = true -> key_placement_ok (x_prop x) = true ->
+  compile_prop re_ok env idx x = Ok o -> p_ty (x_prop x) = PMap r t ->
+  must_be_set (x_prop x) ->
+  validate_sem re_ok re_match (defined_numbers env) o (FMap []) = VReject.
+Proof. exact presence_empty_map. Qed.
+Print Assumptions C12_presence_empty_map.
+
+(* (d) required together with optional does not compile; (e) the options of a oneof have
+       presence each: C12_oneof_members below *)
+Theorem C12_presence_required_and_optional :
+  forall re_ok env idx x,
+  p_req (x_prop x) = true -> p_opt (x_prop x) = true ->
+  forall o, compile_prop re_ok env idx x <> Ok o.
+Proof. exact presence_required_and_optional. Qed.
+Print Assumptions C12_presence_required_and_optional.
+
 (* ---- why the checks are there: the emission stage on its own ------------------------
    [write_prop] (the writer without the front checks) does NOT satisfy the statement:
    the two classes below were compiled by /repo before 722ecd6 / 42e49d9 and were known
